@@ -224,8 +224,14 @@ def _templates(ctx):
     d = c.attrs.get("_SCRIPT_LOOKUP")
     out = {}
     if isinstance(d, ast.Call) and norm(d.func) == "dict":
+        canon_ = sym.Canon(None, None)
         for k in d.keywords:
             lam = k.value
+            if isinstance(lam, ast.Lambda) and isinstance(lam.body, ast.JoinedStr) and all(isinstance(p_, ast.Constant) or (isinstance(p_, ast.FormattedValue) and p_.format_spec is None and p_.conversion in (-1, 115)) for p_ in lam.body.values):
+                # f"OP_0 {x}" is "OP_0 %s" % x
+                fmt_ = "".join(p_.value.replace("%", "%%") if isinstance(p_, ast.Constant) else "%s" for p_ in lam.body.values)
+                vals_ = [p_.value for p_ in lam.body.values if isinstance(p_, ast.FormattedValue)]
+                lam = ast.Lambda(lam.args, ast.BinOp(ast.Constant(fmt_), ast.Mod(), vals_[0] if len(vals_) == 1 else ast.Tuple(vals_, ast.Load())))
             if isinstance(lam, ast.Lambda) and isinstance(lam.body, ast.BinOp) and isinstance(lam.body.op, ast.Mod) and isinstance(lam.body.left, ast.Constant):
                 fields = re.findall(r"info\.get\('(\w+)'\)", norm(lam.body.right))
                 out[k.arg] = (lam.body.left.value, fields)
@@ -325,7 +331,8 @@ def classified_through_matcher(ctx):
         n += 1
         ops = [o for o in (gi.f_opaques(e.cond) if e.cond not in (True, False) else []) if isinstance(o, str)]
         ms = [o for o in ops if o.startswith("truthy(self.match(")]
-        ok = any(sym.entails(e.cond, ("op", o)) for o in ms)
+        ms_none = [o for o in ops if o.startswith("self.match(") and o.endswith(" is None")]        # `if d is not None:` for `if d:`
+        ok = any(sym.entails(e.cond, ("op", o)) for o in ms) or any(sym.entails(e.cond, ("not", ("op", o))) for o in ms_none)
         ctx.check(ok, "classified-through-matcher:%s" % t, ctx.where(f, e.node), "info_for_script reports a script as `%s` on a path on which the template matcher has not accepted it (tests: %s): a recogniser of its own beside the matcher; scripts that only look like the template by length or outline are classified as standard and for_info rebuilds a different script"
                   % (t, [o[:50] for o in ops if not o.startswith("truthy(self.match(")][:3]), sample={"type": t, "matcher_test": (ms or [""])[0][:80]})
     if n == 0:
